@@ -263,7 +263,7 @@ std::vector<std::string> Cells(int tier) {
 bool CellBounds(const vx::Cell& cell, int /*tier*/, vx::Bounds& b) {
   // the whole harness is small enough for "all interleavings"
   b.P = 99;
-  b.S = 0;
+  b.S = 1;
   b.T = cell.Is("cons", "WaitFor") ? 1 : 0;
   return true;
 }
